@@ -236,6 +236,33 @@ func protectedPathC04(c *Ctx) error {
 		default:
 			raw = mutate(rng, wire)
 		}
+		if wire != nil && i%7 == 3 {
+			// an AUTHENTIC datagram (valid checksum, decryptable) whose decrypted octets are arbitrary: a mutated / truncated
+			// / random inner payload chain, any first-payload type, any legal or illegal pad length - what only a holder of
+			// the keys can send, and what must still give a value or an error
+			var inner []byte
+			if in := okBody(implContainerEncode(k.m.At(2))); in != nil && rng.Chance(2, 3) {
+				inner = mutate(rng, in[0].B0())
+			} else {
+				inner = rng.Bytes(rng.Intn(64))
+			}
+			if len(inner) > 3000 {
+				inner = inner[:3000]
+			}
+			first := byte(rng.Pick([]int{0, 33, 40, 41, 46, 47, 48, 49, 200, rng.Intn(256)}))
+			padLen := 16 - len(inner)%16 - 1
+			pad := rng.Bytes(padLen)
+			if rng.Chance(1, 4) { // more padding than needed (any amount up to 255 is legal)
+				pad = rng.Bytes(padLen + 16*rng.Intn(3))
+			}
+			rb, err := refProtect(c, k, k.m.At(1), inner, first, rng.Bytes(16), pad)
+			if err != nil {
+				return err
+			}
+			if rb != nil {
+				raw, src = rb, "authentic-arbitrary-inner"
+			}
+		}
 		ku := k
 		keys := "same"
 		switch i % 5 {
@@ -274,7 +301,9 @@ func protectedPathC04(c *Ctx) error {
 		}
 		r.Count(cs, len(raw) > 0, "src:unprotect-"+src+"-keys-"+keys)
 		r.Hist["op:unprotect"]++
-		if strings.HasPrefix(e, "(fault") || strings.HasPrefix(s1, "(fault") || strings.HasPrefix(s2, "(fault") || e == "fault" {
+		if strings.HasPrefix(e, "(no-value-no-error") || strings.HasPrefix(s1, "(no-value-no-error") || strings.HasPrefix(s2, "(no-value-no-error") {
+			r.Add(Finding{Kind: "instance", What: "unprotection returns neither a value nor an error", Case: cs, Expected: "value or error", Observed: e})
+		} else if strings.HasPrefix(e, "(fault") || strings.HasPrefix(s1, "(fault") || strings.HasPrefix(s2, "(fault") || e == "fault" {
 			r.Add(Finding{Kind: "instance", What: "unprotection panics", Case: cs, Expected: "value or error", Observed: "exact=" + outcomeClass(e) + " spare=" + outcomeClass(s1) + " / " + outcomeClass(s2)})
 		} else if e != s1 || e != s2 {
 			r.Add(Finding{Kind: "instance", What: "unprotection outcome depends on memory behind the slice", Case: cs, Expected: e, Observed: s1 + " / " + s2})
